@@ -92,4 +92,37 @@ pub trait VecGrow<E: Elem> {
     fn shrink_to_fit(&mut self) -> bool {
         false
     }
+    // --- the remaining growth entry points (second generation of the interpreter) ---
+    fn try_push_with(&mut self, f: &mut dyn FnMut() -> E) -> Result<(), AllocError>;
+    /// the `_mut` variants return (value read through the returned reference, index of the referenced element)
+    fn push_mut(&mut self, e: E) -> (u32, usize);
+    fn try_push_mut(&mut self, e: E) -> Result<(u32, usize), AllocError>;
+    fn push_mut_with(&mut self, f: &mut dyn FnMut() -> E) -> (u32, usize);
+    fn try_push_mut_with(&mut self, f: &mut dyn FnMut() -> E) -> Result<(u32, usize), AllocError>;
+    fn insert_mut(&mut self, i: usize, e: E) -> (u32, usize);
+    fn try_insert_mut(&mut self, i: usize, e: E) -> Result<(u32, usize), AllocError>;
+    fn try_extend_from_slice_copy(&mut self, s: &[E]) -> Result<(), AllocError>;
+    fn try_extend_from_within_copy(&mut self, r: (Bound<usize>, Bound<usize>)) -> Result<(), AllocError>;
+    fn try_extend_from_within_clone(&mut self, r: (Bound<usize>, Bound<usize>)) -> Result<(), AllocError>;
+    fn try_resize_with(&mut self, n: usize, f: &mut dyn FnMut() -> E) -> Result<(), AllocError>;
+    /// false: the family has no such method
+    fn reserve_exact(&mut self, _n: usize) -> bool {
+        false
+    }
+    fn shrink_to(&mut self, _n: usize) -> bool {
+        false
+    }
+    /// writes `vals` (in address order) into the spare capacity next to the contents and `set_len`s;
+    /// `via_split`: through `split_at_spare_mut` (returns false if the initialised half differs from `expect`)
+    fn spare_fill(&mut self, vals: Vec<E>, via_split: bool, expect: &[u32]) -> bool;
+    /// `Extend<E>` (by value) or `Extend<&E>`; the iterator reports `hint` as its lower size bound
+    fn extend_iter(&mut self, vals: Vec<E>, by_ref: bool, hint: usize);
+    /// `append` / `try_append` of an owned-slice source of `kind` built from `vals`, of which `k` front and `j` back
+    /// elements were consumed first where the kind is an iterator
+    fn append_src(&mut self, kind: usize, vals: Vec<E>, k: usize, j: usize, try_: bool) -> Result<(), AllocError>;
 }
+
+pub const APPEND_KINDS: [&str; 14] = [
+    "Box<[T]>", "BumpBox<[T]>", "FixedBumpVec", "BumpVec", "MutBumpVec", "MutBumpVecRev", "owned_slice::IntoIter", "owned_slice::Drain", "vec::IntoIter", "vec::Drain", "&mut Vec", "&mut BumpVec",
+    "BumpBox<[T;3]>", "Box<[T;3]>",
+];
